@@ -3,6 +3,7 @@
 package server
 
 import (
+	"math"
 	"bytes"
 	"fmt"
 	"os"
@@ -69,7 +70,7 @@ func waitLeader(s *Server, stream string) error {
 // ------------------------------------------------------------------- C16b
 
 type c16bPub struct {
-	Exp    []int `json:"exp"`    // per publish: 0 waive(-1), 1 last observed end, 2 stale, 3 future
+	Exp    []int `json:"exp"`    // per publish: 0 waive(-1), 1 last observed end, 2 stale, 3 future, 4-6 negative other than -1
 	Policy []int `json:"policy"` // 1 LEADER, 2 ALL
 }
 
@@ -85,7 +86,7 @@ func genC16b(t *rapid.T) c16bCase {
 		n := rapid.IntRange(1, 12).Draw(t, "n")
 		var p c16bPub
 		for j := 0; j < n; j++ {
-			p.Exp = append(p.Exp, rapid.SampledFrom([]int{0, 1, 1, 1, 1, 2, 3}).Draw(t, "exp"))
+			p.Exp = append(p.Exp, rapid.SampledFrom([]int{0, 1, 1, 1, 1, 2, 3, 4, 5, 6}).Draw(t, "exp"))
 			p.Policy = append(p.Policy, rapid.IntRange(1, 2).Draw(t, "policy"))
 		}
 		c.Pubs = append(c.Pubs, p)
@@ -164,6 +165,9 @@ func runC16b(c c16bCase, o *vfutil.Obs) *vfutil.Failure {
 					if exp < 0 {
 						exp = 0
 					}
+				case 4, 5, 6:
+					// a negative value other than the waiver can never be the assigned offset
+					exp = []int64{-2, -7, math.MinInt64}[pub.Exp[j]-4]
 				default:
 					exp = end + 2
 				}
